@@ -701,3 +701,58 @@ def run_cases(pid, cases, tag="implb", timeout=1500, jit=True, per_worker_min=4,
                                    exc_msg=f"rc={s.get('rc')} {s.get('log', '')[-200:]}", support_calls=0)
                               for o in ops]
     return out
+
+
+# ----------------------------------------------------------------------------- extreme colliders (C09, C19)
+def aspect_collider(rng, kind):
+    """aspect ratios up to 1e4: sizes from {1e-2, 1e2} mixed inside one collider (needles, plates)"""
+    s = nw.gen_collider(rng, kind, rng.choice(["random", "lattice"]), spread=5.0, margin_prob=0.1)
+    lo, hi = 1e-2, 1e2
+    pick = lambda: rng.choice([lo, hi, 10 ** rng.uniform(-2, 2)])  # noqa
+    if kind == "ellipsoid":
+        s["radii"] = rng.choice([[lo, hi, hi], [lo, lo, hi], [hi, lo, pick()]])
+    elif kind == "capsule":
+        s["radius"], s["height"] = rng.choice([(lo, hi), (hi, lo)])
+    elif kind == "cylinder":
+        s["radius"], s["length"] = rng.choice([(lo, hi), (hi, lo)])
+    elif kind == "cone":
+        s["radius"], s["height"] = rng.choice([(lo, hi), (hi, lo)])
+    elif kind == "box":
+        s["size"] = rng.choice([[lo, hi, hi], [lo, lo, hi], [hi, lo, pick()]])
+    elif kind == "ellipse":
+        s["radii"] = rng.choice([[lo, hi], [hi, lo]])
+    elif kind in ("sphere", "disk"):
+        s["radius"] = rng.choice([lo, hi])
+    elif kind in ("mesh", "hull"):
+        sc = np.array(rng.choice([[lo, hi, hi], [lo, lo, hi], [hi, lo, 1.0]])) / 1.0
+        n = rng.choice([6, 8, 12, 20])
+        pts = []
+        for _ in range(n):
+            v = np.array([rng.gauss(0, 1) for _ in range(3)])
+            v = v / np.linalg.norm(v) * sc * 0.5
+            pts.append(v.tolist())
+        s["vertices"] = pts
+    if "margin" in s:
+        s["margin"] = rng.choice([lo, 0.125])
+    return s
+
+
+def flat_collider(rng):
+    """zero-volume colliders: single vertex, segment, planar hull, disk, ellipse"""
+    k = rng.choice(["vertex", "segment", "triangle", "planar", "disk", "ellipse"])
+    st = rng.choice(["lattice", "random"])
+    if k in ("disk", "ellipse"):
+        return nw.gen_collider(rng, k, st, spread=3.0, margin_prob=0.0)
+    c = np.array(nw.rand_center(rng, st, 3.0))
+    R = nw.rand_rotation(rng, st)
+    sz = nw.rand_size(rng, st if st == "lattice" else "moderate")
+    if k == "vertex":
+        P = [[0, 0, 0]]
+    elif k == "segment":
+        P = [[-1, 0, 0], [1, 0, 0]]
+    elif k == "triangle":
+        P = [[-1, -1, 0], [1, -1, 0], [0, 1, 0]]
+    else:
+        P = [[-1, -1, 0], [1, -1, 0], [1, 1, 0], [-1, 1, 0], [0, 0, 0]]
+    V = (sz * np.array(P, float)) @ R.T + c
+    return dict(kind="hull", vertices=V.tolist(), flat=k)
